@@ -219,6 +219,11 @@ def _schema_validator(built, path, vspec):
             raise ValueError("schema validator of %s says no" % (path or "<root>"))
         if vspec == "boom":
             raise KeyError("schema validator of %s exploded" % (path or "<root>"))
+        if vspec == "fail-ve":
+            # a validator that raises the library's own error type itself
+            import sys
+
+            raise sys.modules["cincoconfig"].ValidationError(cfg, None, ValueError("schema validator of %s says no" % (path or "<root>")))
 
     return validator
 
